@@ -25,7 +25,8 @@ SPEC = dict(
     ),
     bound=dict(
         quick="DAGs with <= 3 ops (backward; scenario S1 both flag scenarios, outputs <= 2) and <= 2 ops (mtl_backward: every pick of 1..2 "
-              "features and 1..2 ordered losses such that every op is live; scenarios S1, S3)",
+              "features and 1..2 ordered losses such that every op is live; scenarios S1, S3); scalar arithmetic DAGs with 3 ops; hand-built graphs: "
+              "fused TorchScript / Python Function nodes, features that are views of a non-leaf base (5 view kinds x 3 consumers), a Function context holding a foreign leaf, complex leaves",
         thorough="mtl_backward additionally on DAGs with 3 ops (1 feature, 1..2 losses), scenarios S1 and S3, both flag scenarios",
     ),
     assumptions=[
